@@ -192,5 +192,7 @@ def tasks(tier):
         x = h.real('x')
         h.prove(ops.equal(x, 0), 'engine.mustfail')
     ts.append(Task('causal.selftest', causal_selftest, extra=dict(task_timeout_s=600)))
+    from props import common as _common
+    ts.append(Task('frame', _common.frame_task(['jesse.helpers.get_candle_source', 'jesse.helpers.slice_candles', 'jesse.helpers.same_length', 'jesse.helpers.np_shift'])))
     ts.append(Task('mustfail', mustfail))
     return ts
